@@ -138,8 +138,50 @@ def run(ctx):
             if not ok:
                 ctx.report(f"a PBES2 JWE produced by joserfc with p2c={p2c} is rejected by the independent implementation: {why}",
                            {"alg": alg, "p2c": p2c, "value": v.decode()}, f"interop:impl->ref:{alg.split('+')[0]}:p2c")
+    multi_recipient_interop(ctx)
     other_info(ctx)
     vectors(ctx)
+
+
+def multi_recipient_interop(ctx):
+    """joserfc -> reference for general JSON with SEVERAL recipients of mixed key management: every recipient entry must be
+    usable by an independent implementation given that recipient's private key only - in particular when key-agreement
+    flavours are mixed in one message (ECDH-ES+AxxxKW beside ECDH-1PU+AxxxKW: only the latter binds the tag into the KDF)."""
+    from joserfc import jwe
+    rng = ctx.rng
+    pool = [("A128KW", "oct16"), ("A256KW", "oct32"), ("RSA-OAEP", "rsa2048"), ("RSA1_5", "rsa2048"), ("A128GCMKW", "oct16"), ("PBES2-HS256+A128KW", "oct32"),
+            ("ECDH-ES+A128KW", "x25519"), ("ECDH-ES+A256KW", "p384"), ("ECDH-ES+A192KW", "p256"),
+            ("ECDH-1PU+A128KW", "p256"), ("ECDH-1PU+A256KW", "p256"), ("ECDH-1PU+A192KW", "p256")]
+    by = dict(pool)
+    fixed = [["ECDH-ES+A128KW", "ECDH-1PU+A128KW"], ["ECDH-1PU+A128KW", "ECDH-ES+A128KW"], ["ECDH-1PU+A256KW", "ECDH-1PU+A128KW"], ["ECDH-ES+A256KW", "ECDH-ES+A128KW"],
+             ["ECDH-ES+A192KW", "ECDH-1PU+A192KW", "A128KW"], ["RSA-OAEP", "ECDH-1PU+A128KW"], ["A128GCMKW", "ECDH-ES+A128KW", "RSA1_5"],
+             ["ECDH-1PU+A128KW", "PBES2-HS256+A128KW", "ECDH-ES+A256KW", "ECDH-1PU+A256KW"]]
+    mixes = fixed + [[a for a, _ in rng.sample(pool, rng.randrange(2, 5))] for _ in range(6 if ctx.tier == "quick" else 60)]
+    sender = K.key("p256b", private=True)
+    for algs in mixes:
+        one_pu = any(a.startswith("ECDH-1PU") for a in algs)
+        enc = rng.choice(["A128CBC-HS256", "A192CBC-HS384", "A256CBC-HS512"] if one_pu else list(R.ENCS))
+        pt = rng.choice(E.PLAINTEXTS)
+        aad = rng.choice([None, b"the aad"])
+        obj = jwe.GeneralJSONEncryption({"enc": enc, **({"apu": "QWxpY2U", "apv": "Qm9i"} if rng.random() < 0.5 and all(a.startswith("ECDH") for a in algs) else {})}, pt, None, aad)
+        for a in algs:
+            kn = by[a]
+            obj.add_recipient({"alg": a}, K.key(kn, private=False) if K._SPECS[kn][0] != "oct" else K.key(kn))
+        try:
+            v = jwe.encrypt_json(obj, None, algorithms=E.ALL_NAMES, sender_key=sender if one_pu else None)
+        except Exception as e:  # noqa: BLE001
+            ctx.report(f"joserfc could not encrypt for the recipients {algs} ({enc}): {err_name(e)}", {"algs": algs, "enc": enc}, "encrypt:multi")
+            continue
+        for i, a in enumerate(algs):
+            ctx.count("impl-encrypts-ref-decrypts-multi", (tuple(algs), enc, i, repr(v)[:80]), True, a)
+            try:
+                got = R.decrypt(v, E.native_priv(by[a]), sender.raw_value.public_key() if a.startswith("ECDH-1PU") else None, pick=i)
+                ok, why = got == pt, "plaintext differs"
+            except R.RefReject as e:
+                ok, why = False, str(e)
+            if not ok:
+                ctx.report(f"recipient #{i} ({a}) of a JWE produced by joserfc for {algs} ({enc}) cannot be used by the independent implementation: {why}",
+                           {"algs": algs, "enc": enc, "i": i, "value": v}, f"interop:impl->ref:multi:{a.split('+')[0]}")
 
 
 def facts(ctx, alg, enc, ser, v):
